@@ -1195,6 +1195,44 @@ def sweep_drain_loop():
     return out
 
 
+def mon_C04_owner_exited(case, obs):
+    """judged from the history alone (not from the implementation's own marker): an apply job that was
+    acknowledged by worker p while it was waiting, whose worker p then exits before any result of the job is
+    handled, is resolved by the time the passes have run more than its lost-worker timeout (+ slack) after
+    the pass that reaped p.  (An acknowledgement handled AFTER p was reaped is the recorded finding D11.)"""
+    out = []
+    params = job_params(case, obs)
+    owner = {}
+    reaped_at = {}
+    exited = set()
+    flagged = set()
+    ambiguous = set()
+    for n, (e, o) in enumerate(zip(case['events'], obs)):
+        if e[0] == 'ack' and e[2] is None and n and not o['exc'] and e[1] < len(obs[n - 1]['jobs']):
+            pj = obs[n - 1]['jobs'][e[1]]
+            if pj['kind'] == 'apply' and pj['incache'] and not pj['ready'] and e[3] not in exited and e[1] not in owner \
+                    and e[1] not in ambiguous:
+                owner[e[1]] = e[3]
+            elif e[1] in owner and owner[e[1]] != e[3]:
+                ambiguous.add(e[1])          # acknowledged a second time by somebody else: whose job it is is not ours to say
+                del owner[e[1]]
+        if e[0] == 'exit':
+            exited.add(e[1])
+        if e[0] in ('tick', 'join_shutdown') and n and o['exc'] in (None, 'WorkersJoined'):
+            gone = {w[0] for w in obs[n - 1]['workers']} - {w[0] for w in o['workers']}
+            for p_ in gone:
+                reaped_at.setdefault(p_, o['now'])
+            for k, p_ in owner.items():
+                if p_ in reaped_at and k < len(o['jobs']) and k < len(params) and k not in flagged:
+                    j = o['jobs'][k]
+                    if j['incache'] and not j['ready'] and o['now'] - reaped_at[p_] > params[k][2] + 1:
+                        flagged.add(k)
+                        out.append(('C04:job-of-exited-worker-never-reported',
+                                    'job %d was acknowledged by worker %d, which exited and was reaped at %s; at %s (lost-worker timeout %s) '
+                                    'a pass has run and the job is still unresolved (marker: %s)' % (k, p_, reaped_at[p_], o['now'], params[k][2], j['lost'])))
+    return out
+
+
 def mon_C04_drain(case, obs):
     """a job whose worker exited is failed by the drain loop once its grace period (plus one round) is
     over, whatever else the loop is busy with"""
@@ -1220,6 +1258,22 @@ def mon_C04_drain(case, obs):
                             'job %d: its worker exited (status %s) at %s, lost-worker timeout %s; the drain loop of the closed pool has run until %s '
                             'and the job is still unresolved (%d supervision passes the loop should have run were skipped)'
                             % (k, st, te, params[k][2], last['now'], skipped)))
+    return out
+
+
+def sweep_raising_accept_loss():
+    """the accept callback of a job raises (every second job of these histories); afterwards the job's
+    worker dies mid-task: the job is still reported lost after its grace period, like any other"""
+    out = []
+    for n in (1, 2):
+        for code in (-9, 1):
+            for lost in (None, 2):
+                ev = [['apply', None, None, lost, None], ['apply', None, None, lost, None]]
+                ev += [['ack', 0, None, 0], ['ack', 1, None, n - 1]]
+                if n == 1:
+                    ev = [['apply', None, None, lost, None], ['apply', None, None, lost, None], ['ack', 1, None, 0]]
+                ev += [['exit', n - 1, code], ['tick'], ['advance', 12], ['tick'], ['advance', 12], ['tick']]
+                out.append(dict(cfg=dict(n=n, max_restarts=100, accept_raises=True), events=ev))
     return out
 
 
@@ -1316,11 +1370,16 @@ def mon_C01_foreign_loss(case, obs):
             if s_ == 'C04:job-marked-lost-for-a-worker-that-never-accepted-it']
 
 
+def mon_C01_lost_unresolved(case, obs):
+    """every submitted job resolves: a job whose worker exited is failed once its grace period is over"""
+    return [('C01:job-of-exited-worker-never-resolved', w) for s_, w in mon_C04(case, obs) if s_ == 'C04:loss-not-reported-in-time']
+
+
 def mon_C01_unresolved(case, obs):
     return [('C01:job-unresolved-past-hard-limit', w) for s_, w in mon_C05_jobs(case, obs) if s_ == 'C05:not-timed-out-by-scan']
 
 
-SWEEPS = dict(C01=lambda: sweep_loss()[::3] + sweep_limits()[::3] + sweep_terminate_job() + sweep_late_result()[::2] + sweep_two_handles(), C04=lambda: sweep_loss() + sweep_terminate_job() + sweep_shutdown_loss() + sweep_late_result() + sweep_two_handles() + sweep_drain_loop(), C05=sweep_limits, C06=sweep_limits,
+SWEEPS = dict(C01=lambda: sweep_loss()[::3] + sweep_limits()[::3] + sweep_terminate_job() + sweep_late_result()[::2] + sweep_two_handles() + sweep_shutdown_loss(), C04=lambda: sweep_loss() + sweep_terminate_job() + sweep_shutdown_loss() + sweep_late_result() + sweep_two_handles() + sweep_drain_loop() + sweep_raising_accept_loss(), C05=sweep_limits, C06=sweep_limits,
               C07=lambda: sweep_close_in_pass() + sweep_shutdown_loss() + sweep_empty_after() + sweep_drain_loop()[::2],
               C08=lambda: sweep_loss()[::6] + sweep_terminate_job()[::2] + sweep_close_in_pass()[::3], C09=lambda: sweep_loss()[::6] + sweep_resize() + sweep_close_in_pass()[::2] + sweep_grow_budget(), C11=sweep_grow_budget,
               C10=lambda: sweep_resize() + sweep_timeout_slots())
@@ -2130,9 +2189,11 @@ def mon_C01_unsent(case, obs):
 
 MONITORS['C01'].append(mon_C01_unsent)
 MONITORS['C04'].append(mon_C04_drain)
+MONITORS['C04'].append(mon_C04_owner_exited)
 MONITORS['C10'].append(mon_C10_quiet_end)
 MONITORS['C10'].append(mon_known_C10_two_jobs)
 MONITORS['C01'].append(mon_C01_result_dropped)
+MONITORS['C01'].append(mon_C01_lost_unresolved)
 MONITORS['C01'].append(mon_C01_foreign_loss)
 MONITORS['C01'].append(mon_C01_terminated)
 MONITORS['C01'].append(mon_C01_unresolved)
@@ -2242,7 +2303,10 @@ def real_scenarios(res, pid, specs):
                     alarm('C11:budget-not-restored-by-acceptance', 'restart counter after an accepted job: %s' % json.dumps(r['log']))
             else:
                 admitted = sum(1 for e in r['log'] if e.get('replaced'))
-                if not r['gave_up'] or admitted > sp.get('max_restarts', 3):
+                # the property: at most max_restarts replacements inside the window, the next one is not forked.
+                # That the supervisor then also tells the parent to stop (SIGTERM, `gave_up`) within the
+                # scenario's deadlines is not part of it (under load it arrived late once: a false alarm)
+                if admitted > sp.get('max_restarts', 3) or (not r['gave_up'] and len(r['log']) <= sp.get('max_restarts', 3)):
                     alarm('C11:limit-not-enforced-on-real-pool',
                           'real pool (max_restarts=%s): %d replacements admitted without any acceptance, gave up: %s'
                           % (sp.get('max_restarts', 3), admitted, r['gave_up']))
